@@ -121,6 +121,18 @@ class Ctx:
                     if n <= 1:
                         break
             return outs
+        if re.match(r"^Vec::<(usize|u64)>::dedup$", f):
+            seq, ref = CM.seq_of(I, st, args[0])
+            vals = list(seq.fields)
+            outs = []
+            for mask in itertools.product((False, True), repeat=max(0, len(vals) - 1)):
+                cond = z3.And([(vals[j + 1] == vals[j]) if mask[j] else (vals[j + 1] != vals[j]) for j in range(len(mask))]) if mask else z3.BoolVal(True)
+                if I.feasible(st, cond):
+                    s2 = st.fork()
+                    s2.assume(cond)
+                    I.store(s2, ref, Agg("vec", None, tuple(vals[:1] + [vals[j + 1] for j in range(len(mask)) if not mask[j]])))
+                    outs.append(Outcome("return", MI.UNIT, s2))
+            return outs
         if re.match(r"^<Vec<.*> as DerefMut>::deref_mut$", f):
             return MM.ret(st, args[0])
         if re.match(r"^Vec::<.*>::remove$", f):
@@ -194,6 +206,46 @@ def build_tree(ctx, prog, n, tag):
     if len(rets) != 1:
         raise Unencodable("MerkleTree::new(%d leaves): %d returning paths (%s)" % (n, len(rets), [o.msg for o in outs if o.kind != "return"][:2]))
     return leaves, rets[0].value, rets[0].state
+
+
+def forge_spec(ctx, model, n, leaves, claimed, idx, vals, depth):
+    """turn a soundness counterexample into a concrete forgery for the native replay: which claimed leaves are committed ones,
+    and what every path value is in terms of the digest function (closure of H over the leaves, bounded by the tree depth)"""
+    ev = lambda t: model.eval(t, model_completion=True)
+    code = lambda t: ev(t).as_long()
+    leafcodes = {}
+    for i, l_ in enumerate(leaves):
+        leafcodes.setdefault(code(l_.term), {"L": i})
+    claims = []
+    fakes = {}
+    for t, c_ in enumerate(claimed):
+        cc = code(c_.term)
+        if cc in leafcodes:
+            claims.append(leafcodes[cc])
+        else:
+            fakes.setdefault(cc, {"F": len(fakes)})
+            claims.append(fakes[cc])
+    known = {}
+    for cc, e in list(leafcodes.items()) + list(fakes.items()):
+        known.setdefault(code(ctx.H1(z3.IntVal(cc))), e)
+    known.setdefault(code(ctx.H1(PAD_INPUT)), "P")
+    wanted = [code(v.term) for v in vals]
+    for _ in range(depth):
+        if all(w in known for w in wanted) or len(known) > 60:
+            break
+        items = list(known.items())
+        for a, ea in items:
+            for b, eb in items:
+                known.setdefault(code(ctx.H2(z3.IntVal(a), z3.IntVal(b))), {"h2": [ea, eb]})
+    junk = {}
+    values = []
+    for w in wanted:
+        if w in known:
+            values.append(known[w])
+        else:
+            junk.setdefault(w, {"J": len(junk)})
+            values.append(junk[w])
+    return {"n": n, "claims": claims, "indices": [code(x) for x in idx], "values": values}
 
 
 def call1(ctx, f, args, st, what):
@@ -273,12 +325,13 @@ def run(tier, seed):
             ob.status = "discharged" if okall else "failed"
             # ---- soundness: arbitrary claimed leaves, indices and path values ------------------------------------------------
             depth = max(1, (n - 1).bit_length())
-            for nclaim in (1, 2):
-                if nclaim > n + 1:
+            shapes = [(1, 1), (2, 2), (2, 1), (1, 2)] + ([] if tier == "quick" else [(3, 3), (3, 2), (3, 1), (2, 3), (1, 0), (0, 1)])
+            for nclaim, nidx in shapes:
+                if min(nclaim, nidx) > n + 1:
                     continue
                 for nvals in range(0, depth + 2):
                     claimed = [Abs("leaf", z3.Int("claimed_%d" % t)) for t in range(nclaim)]
-                    idx = [z3.Int("index_%d" % t) for t in range(nclaim)]
+                    idx = [z3.Int("index_%d" % t) for t in range(nidx)]
                     vals = [Abs("digest", z3.Int("path_value_%d" % t)) for t in range(nvals)]
                     s = st1.fork()
                     for x in idx:
@@ -301,13 +354,13 @@ def run(tier, seed):
                             exh.append(o)
                         elif o.value.discr == 0:
                             acc.append(o)
-                    name = "c09_sound_n%d_claims%d_values%d" % (n, nclaim, nvals)
-                    ob = rep.add(core.Obligation(name, "smt", "n=%d, %d claimed leaves, %d path values: accept => indices strictly increasing, < n, and claimed[t] = leaves[index[t]]" % (n, nclaim, nvals),
+                    name = "c09_sound_n%d_claims%d_idx%d_values%d" % (n, nclaim, nidx, nvals) if nclaim != nidx else "c09_sound_n%d_claims%d_values%d" % (n, nclaim, nvals)
+                    ob = rep.add(core.Obligation(name, "smt", "n=%d, %d claimed leaves, %d indices, %d path values: accept => as many leaves as indices, indices strictly increasing, < n, and claimed[t] = leaves[index[t]]" % (n, nclaim, nidx, nvals),
                                                  {"vccs": len(acc), "paths": len(outs)}))
-                    goodc = []
-                    for t in range(nclaim):
+                    goodc = [z3.BoolVal(nclaim == nidx)]
+                    for t in range(min(nclaim, nidx)):
                         goodc.append(z3.Or([z3.And(idx[t] == i, claimed[t].term == leaves[i].term) for i in range(n)]))
-                    for t in range(nclaim - 1):
+                    for t in range(nidx - 1):
                         goodc.append(idx[t] < idx[t + 1])
                     status = "discharged"
                     for o in acc:
@@ -317,7 +370,9 @@ def run(tier, seed):
                             status = "failed"
                             md = smt.model_to_dict(r.model)
                             ob.counterexample = {k_: v for k_, v in md.items() if k_.startswith(("index_", "claimed_", "leaf_", "path_value_"))}
-                            failures.append(("soundness", n, (nclaim, nvals), r.model, str(ob.counterexample)))
+                            r2 = smt.check(list(o.pc) + [z3.Not(z3.And(goodc)), z3.Distinct([l_.term for l_ in leaves])] if n > 1 else list(o.pc) + [z3.Not(z3.And(goodc))], timeout_s=tmo)
+                            mdl = r2.model if r2.status == "sat" else r.model
+                            failures.append(("soundness", n, (nclaim, nidx, nvals), mdl, str(ob.counterexample), forge_spec(ctx, mdl, n, leaves, claimed, idx, vals, depth)))
                             break
                         if r.status != "unsat":
                             status = "inconclusive"
@@ -385,7 +440,9 @@ def run(tier, seed):
     # ---- replay ---------------------------------------------------------------------------------------------------------
     seen = set()
     k = 0
-    for clause, n, shape, model, what in failures:
+    for fl in failures:
+        clause, n, shape, model, what = fl[:5]
+        spec = fl[5] if len(fl) > 5 else None
         role = "c09-" + clause
         if role in seen:
             continue
@@ -402,8 +459,14 @@ def run(tier, seed):
                 native["merkle_empty_proof"] = native_stm("merkle_empty_proof")
                 reproduced = native["merkle_empty_proof"].startswith("panic") or native["merkle_empty_proof"].startswith("accepted")
             elif clause in ("soundness", "completeness", "panic"):
-                native["merkle_battery"] = native_stm("merkle_battery")
-                reproduced = "VIOLATED" in native["merkle_battery"]
+                if spec is not None:
+                    import json
+                    native["merkle_forge_spec"] = spec
+                    native["merkle_forge"] = native_stm("merkle_forge", json.dumps(spec))
+                    reproduced = "control=ok" in native["merkle_forge"] and "forged=accepted" in native["merkle_forge"]
+                if not reproduced:
+                    native["merkle_battery"] = native_stm("merkle_battery")
+                    reproduced = "VIOLATED" in native["merkle_battery"]
         except Exception as e:
             native["error"] = str(e)
         path = core.write_replay("C09", k, {"property": "C09", "role": role, "n": n, "shape": shape, "what": what, "native_replay": native})
